@@ -11,6 +11,7 @@ import (
 	"fmt"
 	"runtime"
 	"sync"
+	"sync/atomic"
 	"time"
 
 	"github.com/transparency-dev/witness/internal/persistence"
@@ -30,8 +31,15 @@ func gid() uint64 {
 	return id
 }
 
-// StuckAfter is how long the scheduler waits for a released task before inspecting why it has not come back.
+// StuckAfter is how long the scheduler waits, when nothing else can run, before inspecting why no task comes back.
 var StuckAfter = 5 * time.Second
+
+// BlockedAfter is how long the scheduler waits for a released task to park again or finish before it
+// considers the task blocked on something outside the storage layer (another request, say) and goes on
+// scheduling the other tasks. The judgement only affects scheduling, never a verdict: a task that was
+// merely slow simply runs concurrently with the next one, and its call/return interval stays a superset
+// of the real one (the logical clock only moves forward).
+var BlockedAfter = 250 * time.Millisecond
 
 // Op is one operation of a task, bracketed by call/return events on the logical clock.
 type Op struct {
@@ -51,6 +59,7 @@ type Task struct {
 	parked  string
 	holdsTx bool
 	done    bool
+	blocked bool
 }
 
 type arrival struct {
@@ -70,7 +79,7 @@ type Exec struct {
 	arrive chan arrival
 	mu     sync.Mutex
 	byGID  map[uint64]*Task
-	clock  int64
+	clock  atomic.Int64
 
 	// results
 	Choices   []int
@@ -80,6 +89,8 @@ type Exec struct {
 	// Stuck is set when a released task did not come back; Deadlock tells whether that is a proven wedge.
 	Stuck string
 	Steps int
+	// BlockedEvents counts how often a released task was judged blocked (see BlockedAfter).
+	BlockedEvents int
 }
 
 // NewExec prepares an execution over the given tasks.
@@ -128,9 +139,9 @@ func (e *Exec) Run() {
 			e.mu.Unlock()
 			for _, op := range t.Ops {
 				e.yield(t, "invoke")
-				op.Call = e.clock
+				op.Call = e.clock.Load()
 				op.Output = op.Run()
-				op.Return = e.clock + 1
+				op.Return = e.clock.Load() + 1
 				op.Done = true
 			}
 			e.arrive <- arrival{t: t, done: true}
@@ -142,11 +153,59 @@ func (e *Exec) Run() {
 		a.t.parked = a.op
 	}
 	last, preempt := -1, 0
+	note := func(a arrival) {
+		a.t.blocked = false
+		if a.done {
+			a.t.done = true
+		} else {
+			a.t.parked = a.op
+		}
+	}
+	selfDeadlock := func() bool {
+		if e.DB == nil {
+			return false
+		}
+		st := e.DB.Stats()
+		if st.MaxOpenConnections == 0 || st.InUse < st.MaxOpenConnections {
+			return false
+		}
+		for _, t := range e.Tasks {
+			if t.blocked && t.holdsTx {
+				return true
+			}
+		}
+		return false
+	}
 	for {
 		var en []int
-		parked := 0
+		parked, blocked := 0, 0
+		for _, t := range e.Tasks {
+			if t.blocked {
+				blocked++
+			}
+		}
+		if blocked > 0 {
+			// tasks judged blocked may have come back in the meantime
+			runtime.Gosched()
+		drain:
+			for {
+				select {
+				case a := <-e.arrive:
+					note(a)
+				default:
+					break drain
+				}
+			}
+		}
+		blocked = 0
+		var blockedAt string
 		for _, t := range e.Tasks {
 			if t.done {
+				continue
+			}
+			if t.blocked {
+				blocked++
+				blockedAt = fmt.Sprintf("task %d did not return from %s", t.ID, t.parked)
 				continue
 			}
 			parked++
@@ -154,13 +213,32 @@ func (e *Exec) Run() {
 				en = append(en, t.ID)
 			}
 		}
-		if parked == 0 {
+		if parked == 0 && blocked == 0 {
 			return
 		}
 		if len(en) == 0 {
-			e.Deadlock = true
-			// leave the parked goroutines parked; the caller discards the execution
-			return
+			if blocked == 0 {
+				e.Deadlock = true
+				// leave the parked goroutines parked; the caller discards the execution
+				return
+			}
+			// only blocked tasks could still move anything: wait for one of them
+			timer := time.NewTimer(StuckAfter)
+			select {
+			case a := <-e.arrive:
+				timer.Stop()
+				note(a)
+				continue
+			case <-timer.C:
+				// Time only triggers the inspection; the verdict is structural: a task that holds the
+				// only connection (its own open transaction) and waits for another one can never proceed.
+				e.Stuck = blockedAt
+				if selfDeadlock() {
+					e.Deadlock = true
+					e.Stuck += " while holding its own transaction on a pool with no free connection (self-deadlock)"
+				}
+				return
+			}
 		}
 		cand := en
 		lastEnabled := false
@@ -185,32 +263,26 @@ func (e *Exec) Run() {
 		t := e.Tasks[pick]
 		e.Trace = append(e.Trace, fmt.Sprintf("t%d:%s", pick, t.parked))
 		e.Steps++
-		e.clock += 2
+		e.clock.Add(2)
 		last = pick
 		t.resume <- struct{}{}
-		var a arrival
-		timer := time.NewTimer(StuckAfter)
-		select {
-		case a = <-e.arrive:
-			timer.Stop()
-		case <-timer.C:
-			// The released task neither parked again nor finished. Time only triggers the
-			// inspection; the verdict is structural: a task that holds the only connection
-			// (its own open transaction) and waits for another one can never proceed.
-			e.Stuck = fmt.Sprintf("task %d did not return from %s", pick, t.parked)
-			if e.DB != nil {
-				st := e.DB.Stats()
-				if t.holdsTx && st.MaxOpenConnections > 0 && st.InUse >= st.MaxOpenConnections {
-					e.Deadlock = true
-					e.Stuck += " while holding its own transaction on a pool with no free connection (self-deadlock)"
+		timer := time.NewTimer(BlockedAfter)
+	wait:
+		for {
+			select {
+			case a := <-e.arrive:
+				note(a)
+				if a.t == t {
+					timer.Stop()
+					break wait
 				}
+				// a task judged blocked earlier came back; keep waiting for the released one
+			case <-timer.C:
+				t.blocked = true
+				e.BlockedEvents++
+				e.Trace = append(e.Trace, fmt.Sprintf("t%d:blocked", pick))
+				break wait
 			}
-			return
-		}
-		if a.done {
-			a.t.done = true
-		} else {
-			a.t.parked = a.op
 		}
 	}
 }
